@@ -650,10 +650,11 @@ def _check_optimize(case, shared=None):
         e = ref["exc"]
         if _pop_selection_defect(e, meas, c):
             raise Violation(ID, POPSEL, "at.optimize with a measurable restricted to populations %r ended in %r although these are population names of the model; %s" % ([m.get("pops") for m in meas if m.get("pops")], e, desc))
-        if isinstance(e, AssertionError) and "has a total of nan" in str(e) and "target value 0.0" in str(e):
-            # a total-spend constraint whose required total is 0 (every adjusted program unfunded): the rescaling divides by the total;
-            # the request is degenerate and the failure is signalled (C14 decides constraint handling), so it is outside C15's domain
-            raise Discard("total-spend constraint with a required total of 0 (degenerate request, refused by an assertion)")
+        if isinstance(e, AssertionError) and "has a total of nan" in str(e):
+            # a total-spend constraint whose required total is 0 (every adjusted program unfunded: the rescaling divides by the total), or a
+            # relative bound [0, inf) on an unfunded program (0 x inf): the request is degenerate and the failure is signalled by an
+            # assertion (C14 decides constraint handling), so it is outside C15's domain
+            raise Discard("total-spend constraint on a degenerate request (required total 0, or 0 x inf relative bound): refused by an assertion")
         raise Violation(ID, "optimize/crash/" + type(e).__name__, "at.optimize ended in %r; %s" % (e, desc))
 
     if kind == "unresolvable" or ref["outcome"] == "unresolvable" or (infeasible and not invalid_bounds):
